@@ -286,6 +286,8 @@ type SX struct {
 	MaxDepth  int
 	NoInline  map[string]bool        // function names never inlined (kept as opaque calls)
 	ForceStep func(*types.Func) bool // calls recorded as effect steps even when pure (ordering matters to the rule)
+	// InlineStaticSelf: also inline exported methods of the container types when they are called on the bare receiver variable
+	InlineStaticSelf bool
 	addrTaken map[types.Object]bool
 	loopID    int
 	instArgs  []types.Type // type arguments of the generic function being inlined through a function value
@@ -1846,7 +1848,15 @@ func (x *SX) inlinable(f *types.Func, recv Term, st *sxState) *ast.FuncDecl {
 		}
 	}
 	if f.Exported() {
-		return nil // the public API is the vocabulary rules are phrased in; only private helpers are inlined
+		// the public API is the vocabulary rules are phrased in; only private helpers are inlined — unless the rule asks for exported
+		// methods called statically on the bare receiver (no dynamic dispatch through Ego()) to be followed too
+		rv, bare := recv.(TVar)
+		if !x.InlineStaticSelf || !bare || rv.Obj == nil {
+			return nil
+		}
+		if p, ok := rv.Obj.Type().(*types.Pointer); !ok || x.c.Inv().ContOf(namedOf(p.Elem())) == nil {
+			return nil
+		}
 	}
 	if _, isCtor := x.c.wrapperCtor(f); isCtor {
 		return nil // wrapper constructors are vocabulary (producers of fields)
@@ -2111,4 +2121,9 @@ func simplify(t Term) Term {
 		}
 	}
 	return t
+}
+
+func namedOf(t types.Type) *types.Named {
+	n, _ := t.(*types.Named)
+	return n
 }
